@@ -315,11 +315,45 @@ pub struct Scenario {
     pub usage: bool,
 }
 
-pub fn one_case(sc: &Scenario, id: String, mut rng: crate::rng::Rng) -> Case {
+pub fn one_case(sc: &Scenario, id: String, rng: crate::rng::Rng) -> Case {
+    one_case_rec(sc, id, rng, true)
+}
+
+/// Construction on a device whose configuration space ends after `k` bytes, then drop: wherever in its
+/// sequence a constructor reads the field that no longer fits, a failure must not release queue memory
+/// while the device is live on the queue (oracles only; the model is not consulted).
+pub fn trunc_case(d: Drv, k: usize, legacy: bool, all_features: bool, id: String, rng: crate::rng::Rng) -> Case {
+    let sc = Scenario { cfg: NewCfg { d, offered: if all_features { u64::MAX & !(1 << 30) } else { F_VERSION_1 }, legacy, fail: 0, cfg: "ok", max: 65536, postfail: false }, usage: false };
+    crate::c08_init::CFG_TRUNC.with(|c| c.set(Some(k)));
+    let mut c = one_case_rec(&sc, id, rng, false);
+    crate::c08_init::CFG_TRUNC.with(|c| c.set(None));
+    c.tag(format!("config-cut-at-{}", k.min(64)));
+    c.nontrivial = true;
+    c
+}
+
+pub fn trunc_cases(ctx: &Ctx, prop: &str) -> Vec<Case> {
+    let mut grid = vec![];
+    for d in Drv::ALL {
+        let n = d.config_ok().len();
+        for k in 0..=n.min(40) {
+            for legacy in [false, true] {
+                for allf in [false, true] {
+                    grid.push((d, k, legacy, allf));
+                }
+            }
+        }
+    }
+    crate::runner::par_cases(ctx, prop, "config-cut", grid.len(), |i, id| trunc_case(grid[i].0, grid[i].1, grid[i].2, grid[i].3, id, ctx.case_rng("c09-cut", i)))
+}
+
+fn one_case_rec(sc: &Scenario, id: String, mut rng: crate::rng::Rng, record: bool) -> Case {
     let cfg = &sc.cfg;
     let mut c = Case::new(id);
     let (mut r, toks, st, mut mark) = construct_model(cfg);
-    c.step(cfg.op("new"), format!("{} => {}", toks_str(&toks), result_str(&r)));
+    if record {
+        c.step(cfg.op("new"), format!("{} => {}", toks_str(&toks), result_str(&r)));
+    }
     c.tag(cfg.d.name());
     c.tag(if cfg.legacy { "legacy-layout" } else { "modern-layout" });
     let mut all = toks.clone();
@@ -363,12 +397,25 @@ pub fn one_case(sc: &Scenario, id: String, mut rng: crate::rng::Rng) -> Case {
             }
             let (tl, _) = model_log(&st.borrow(), mark);
             let dropped = merged(tl);
-            c.step(format!("{} fbregion={} fbpages={}", cfg.op("drop"), fbr, fbp), toks_str(&dropped));
+            if record {
+                c.step(format!("{} fbregion={} fbpages={}", cfg.op("drop"), fbr, fbp), toks_str(&dropped));
+            }
             all.extend(dropped);
             oracle_ledger(&mut c, "after drop");
         }
     }
     oracle_quiesced(&mut c, &all, true);
+    // on a PCI transport `queue_unset` does nothing (the crate's PciTransport cannot disable a queue): there
+    // the reset at the transport's drop is the only thing that quiesces the device, so queue memory must
+    // outlive the transport — the same history with the queue_unset calls taken out
+    {
+        let pci_like: Vec<Tok> = all.iter().filter(|t| !matches!(t, Tok::QueueUnset(_))).cloned().collect();
+        let n0 = c.oracle_failures.len();
+        oracle_quiesced(&mut c, &pci_like, true);
+        for f in c.oracle_failures[n0..].iter_mut() {
+            *f = format!("{} [on a transport whose queue_unset is a no-op, as PciTransport's]", f);
+        }
+    }
     // `Transport` does not oblige an implementation to reset on drop. All drivers except sound and
     // 9p (which have no `Drop` and rely on the transport, see Props/C09 `needs_reset_on_drop`)
     // disable their queues themselves, so for them the same must hold without the reset.
@@ -438,6 +485,9 @@ pub fn run(ctx: &Ctx) -> (Vec<Case>, String, bool, BTreeMap<String, String>) {
     let mut cases = crate::runner::par_cases(ctx, "C09", "model", scen.len(), |i, id| one_case(&scen[i], id, ctx.case_rng("model", i)));
     let (mm, mmio_rule) = crate::c08_mmio::run_mmio_c09(ctx);
     cases.extend(mm);
+    // configuration space cut off at every length: a constructor that fails on a configuration read must
+    // not release queue memory while the device is live, wherever it performs that read
+    cases.extend(trunc_cases(ctx, "C09"));
     // buffers a driver owns on behalf of non-blocking requests (sound: frames and status word of
     // pcm_xfer_nb) must not be released while their chain is posted: polls before completion and out
     // of order, with the heap watched during the call
